@@ -106,6 +106,9 @@ CheckIgn(j, rec) ==
 CheckRec(j) == LET rec == Recs[j] IN
                IF rec.kind = "w" THEN \A lo \in 0..255 : CheckWord(j, rec, lo)
                ELSE IF rec.kind = "ign" THEN CheckIgn(j, rec)
+               \* a long stream in which channel-1 captions alternate with data for channel 2 / field 2: the same document as
+               \* with padding in place of that data, however many times the channel changes
+               ELSE IF rec.kind = "ignlong" THEN Chk(rec.same = 1, j, rec.v, "only_channel_1_is_decoded_long_stream")
                ELSE CheckDis(j, rec)
 Min2(a, b) == IF a < b THEN a ELSE b
 TInit == i = 1 /\ w = 0
